@@ -714,6 +714,18 @@ func c16SecretFlows(e *c16Env, sensitiveOK func(*ssa.Function) bool) {
 					}
 					continue
 				}
+				switch CalleeName(u) {
+				case "builtin:len", "builtin:cap":
+					continue // only the length is taken
+				case "builtin:append", "builtin:copy", "builtin:min", "builtin:max":
+					if call, isCall := u.(*ssa.Call); isCall {
+						follow(call, what, depth+1) // the bytes travel on in the result
+					}
+					if CalleeName(u) == "builtin:copy" && len(u.Common().Args) == 2 && u.Common().Args[1] == v {
+						follow(u.Common().Args[0], what, depth+1)
+					}
+					continue
+				}
 				if call, isCall := u.(*ssa.Call); isCall && CalleeName(u) == "(*encoding/base64.Encoding).EncodeToString" {
 					sinks = append(sinks, sink{fn, u, what})
 					follow(call, what+"(base64)", depth+1)
@@ -1552,6 +1564,9 @@ func c16BearerKeys(e *c16Env) {
 				okKey, why = false, "no key"
 			}
 			for _, r := range ks {
+				if k, isK := constString(r); isK && k == "" {
+					continue // the key of the empty scope list
+				}
 				j, isCall := r.(*ssa.Call)
 				if !isCall || CalleeName(j) != "strings.Join" {
 					okKey, why = false, "the key is "+describe(r)+", not strings.Join(scopes, \" \")"
@@ -1561,6 +1576,9 @@ func c16BearerKeys(e *c16Env) {
 					okKey, why = false, "the separator is not a single space"
 				}
 				for _, s := range e.SV.Leaves(j.Call.Args[0]) {
+					if c14IsZero(s) {
+						continue // nil: the empty scope list is canonical
+					}
 					lists[s] = true
 					if ok, w := producer(s); !ok {
 						okKey, why = false, "the joined list comes from "+w+", not from GetAllScopesForHost / CleanScopes"
@@ -1588,7 +1606,9 @@ func c16BearerKeys(e *c16Env) {
 					if sl, isSl := a.Type().Underlying().(*types.Slice); isSl {
 						if b, isB := sl.Elem().Underlying().(*types.Basic); isB && b.Kind() == types.String {
 							for _, l := range e.fetchScopeLeaves(a, call.(ssa.Instruction)) {
-								used[l] = true
+								if !c14IsZero(l) {
+									used[l] = true
+								}
 							}
 						}
 					}
